@@ -177,9 +177,14 @@ Examples:
         imin = zip(variables, min)
         imax = zip(variables, max)
     #NOTE: we are stripping off leading zeros
-    lo = '\n'.join(lo % (i,str(float(j)).lstrip('0')) for (i,j) in imin if j != -inf)
-    hi = '\n'.join(hi % (i,str(float(j)).lstrip('0')) for (i,j) in imax if j != inf)
-    return '\n'.join([lo, hi]).strip()
+    # when min[i] == max[i], the bounds are an equality
+    eq = lo.replace('>=','=')
+    imin = list(imin); imax = list(imax)
+    same = [j == k for ((_,j),(_,k)) in zip(imin,imax)]
+    eq = '\n'.join(eq % (i,str(float(j)).lstrip('0')) for ((i,j),s) in zip(imin,same) if s and abs(j) != inf)
+    lo = '\n'.join(lo % (i,str(float(j)).lstrip('0')) for ((i,j),s) in zip(imin,same) if j != -inf and not s)
+    hi = '\n'.join(hi % (i,str(float(j)).lstrip('0')) for ((i,j),s) in zip(imax,same) if j != inf and not s)
+    return '\n'.join(i for i in (eq, lo, hi) if i).strip()
 
 
 def comparator(equation):
